@@ -212,3 +212,13 @@ def maxElementUnary (vals : List Rat) : Nat × Rat :=
   | v :: t => (t.foldl (fun (acc : Nat × Nat × Rat) x => let (i, bi, bv) := acc; if x > bv then (i+1, i, x) else (i+1, bi, bv)) (1, 0, v)).2
 
 end AITB.CursorUtil
+
+/-! ## `findVerticesNaive` (Utils/Polytope.hpp): the caller that relies on `advance()`'s return value -/
+namespace AITB.CursorUtil
+
+/-- `for (auto i = last; i < enumerator->size(); ++i) m.row(i + 1) = rowOf((*enumerator)[i]);` — rows below `last` are kept from the
+    previous subset (`rows`), the others are recomputed from the new id vector; `f` = the row an id stands for (a plane or a simplex boundary) -/
+def refreshRows {α : Type} (f : Nat → α) (rows : List α) (ids : List Nat) (last : Nat) : List α :=
+  rows.take last ++ (ids.drop last).map f
+
+end AITB.CursorUtil
